@@ -109,6 +109,25 @@ ego = new Object at (0, 0, 0), with name "A1", with behavior B(), with allowColl
 terminate after 3 steps
 """
 
+# specifiers and class defaults depending on several random properties of the same object
+# that are resolved later: the order in which those dependencies are visited decides the
+# order of the random draws
+PROGRAMS["multi-dependency-defaults"] = """
+class Crate:
+    a: Range(1, 2)
+    b: Range(1, 2)
+    c: Range(1, 2)
+    width: self.a + 0.1 * self.b
+    length: self.b + 0.1 * self.c + 0.01 * self.a
+
+class Pallet(Crate):
+    load: 100 * self.a * self.b + 10 * self.c
+
+ego = new Pallet at (0, 0, 0), with allowCollisions True
+other = new Pallet at (Range(4, 8), Range(-3, 3), 0), with allowCollisions True
+require other.load > ego.load - 150
+"""
+
 SEEDS = (1, 2)
 
 
@@ -172,33 +191,70 @@ def first_diff(a, b):
 # -- set-order exploration --------------------------------------------------------------------
 
 
-def compile_with_set_order(text, chooser):
-    """Compile under SetOrderSeam; chooser(n) -> permutation index."""
+WIDE_MODULES = (
+    "scenic.core.requirements",
+    "scenic.core.dynamics.scenarios",
+    "scenic.core.scenarios",
+    "scenic.core.specifiers",
+    "scenic.core.object_types",
+    "scenic.core.lazy_eval",
+)
+
+
+def _order_alphabet(n):
+    """Iteration orders offered for a set of n elements: all n! up to 3 elements, then
+    identity / reversed / rotated (keeps the tree finite for the 40-odd property names)."""
+    if n <= 3:
+        return list(itertools.permutations(range(n)))
+    return [tuple(range(n)), tuple(reversed(range(n))), tuple(range(1, n)) + (0,)]
+
+
+def compile_with_set_order(text, chooser, wide=False, run=None):
+    """Compile (and, if run is given, run(scenario)) under SetOrderSeam; chooser(n) -> index.
+
+    wide: the names `set` and `frozenset` are also replaced in the specifier-resolution
+    modules.  Sets of strings there get ONE order per distinct element set and execution
+    (in a real process their order is a function of the strings' hashes, i.e. of
+    PYTHONHASHSEED), sets of identity-hashed objects one order per iteration.
+    """
     perms_cache = {}
+    memo = {}
 
     def perm_source(n, items):
         if n not in perms_cache:
-            perms_cache[n] = list(itertools.permutations(range(n)))
+            perms_cache[n] = _order_alphabet(n) if wide else list(itertools.permutations(range(n)))
+        if wide and all(isinstance(x, str) for x in items):
+            key = tuple(sorted(items))
+            if key not in memo:
+                memo[key] = {x: i for i, x in enumerate(items[j] for j in perms_cache[n][chooser(len(perms_cache[n]))])}
+            rank = memo[key]
+            return tuple(sorted(range(n), key=lambda j: rank[items[j]]))
         return perms_cache[n][chooser(len(perms_cache[n]))]
 
-    with seams.set_order_seam(perm_source):
+    kw = dict(modules=WIDE_MODULES, names=("set", "frozenset")) if wide else {}
+    with seams.set_order_seam(perm_source, **kw):
         import scenic
 
-        return scenic.scenarioFromString(text)
+        sc = scenic.scenarioFromString(text)
+        if run is None:
+            return sc
+        return run(sc)
 
 
-def explore_set_orders(text, seed, name, cap):
+def explore_set_orders(text, seed, name, cap, wide=False, bound=None):
     """All iteration orders of all injected sets (complete tree unless capped)."""
     results = {}
     n_exec = 0
     multi = 0
 
     def once():
+        if wide:
+            return compile_with_set_order(text, lambda n: explorer.choose(n, tag="setorder"), wide=True, run=lambda sc: one_run(sc, seed, 0, name))
         sc = compile_with_set_order(text, lambda n: explorer.choose(n, tag="setorder"))
         return one_run(sc, seed, 0, name)
 
     capped = False
-    for ex, d, st in explorer.explore(once, max_executions=cap):
+    for ex, d, st in explorer.explore(once, bound=bound, max_executions=cap):
         n_exec += 1
         if len(ex.points) > 0:
             multi += 1
@@ -233,7 +289,7 @@ def explore_clock_orders(scenario, seed, name, bound, history):
 def check_program(item):
     name, tier = item
     text = PROGRAMS[name]
-    out = {"name": name, "runs": 0, "violations": [], "set_execs": 0, "set_multi": 0, "clock_orders": 0, "capped": False}
+    out = {"name": name, "runs": 0, "violations": [], "set_execs": 0, "set_multi": 0, "wide_execs": 0, "wide_multi": 0, "clock_orders": 0, "capped": False}
     import scenic
 
     for seed in SEEDS if tier == "thorough" else SEEDS[:1]:
@@ -253,6 +309,18 @@ def check_program(item):
             d, choices = res[others[0]]
             out["violations"].append(
                 ("set-order-dependence", f"program {name}, seed {seed}: {len(res)} distinct results over {n} iteration orders of the requirement-dependency sets; e.g. {first_diff(ref, d)}", {"name": name, "seed": seed, "kind": "set", "choices": choices})
+            )
+        # (1b) iteration orders of the sets of property names used while resolving specifiers
+        res, n, multi, capped = explore_set_orders(text, seed, name, 600 if tier == "quick" else 6000, wide=True, bound=2 if tier == "quick" else None)
+        out["wide_execs"] += n
+        out["wide_multi"] += multi
+        out["runs"] += n
+        out["capped"] |= capped
+        others = [k for k in res if k != refd]
+        if others:
+            d, choices = res[others[0]]
+            out["violations"].append(
+                ("set-order-dependence:property-name-sets", f"program {name}, seed {seed}: {len(res)} distinct results over {n} assignments of iteration orders to the sets of property names used in specifier resolution (the order of a set of strings depends on PYTHONHASHSEED); e.g. {first_diff(ref, d)}", {"name": name, "seed": seed, "kind": "wideset", "choices": choices})
             )
         # (2) requirement-check orderings x history
         for history in range(0, 4 if tier == "thorough" else 3):
@@ -302,7 +370,7 @@ def fresh_process(args):
 def run(ctx):
     names = list(PROGRAMS)
     items = ctx.rotate([(n, ctx.tier) for n in names])
-    tot = {"runs": 0, "set_execs": 0, "set_multi": 0, "clock_orders": 0}
+    tot = {"runs": 0, "set_execs": 0, "set_multi": 0, "wide_execs": 0, "wide_multi": 0, "clock_orders": 0}
     for r in ctx.pmap(check_program, items, chunksize=1):
         for k in tot:
             tot[k] += r[k]
@@ -313,7 +381,7 @@ def run(ctx):
     ctx.notes.append(f"in-process exploration finished after {ctx.elapsed():.0f}s")
     # real processes (finite list, run completely): PYTHONHASHSEED x program
     hs = (0, 1, 2, 3) if ctx.tier == "quick" else tuple(range(8))
-    jobs = [(n, 1, h) for n in (["witness"] if ctx.tier == "quick" else ["witness"] + names) for h in hs]
+    jobs = [(n, 1, h) for n in (["witness", "multi-dependency-defaults"] if ctx.tier == "quick" else ["witness"] + names) for h in hs]
     groups = {}
     for name, seed, h, d in ctx.pmap(fresh_process, jobs, chunksize=1):
         tot["runs"] += 1
@@ -329,17 +397,17 @@ def run(ctx):
                 {"name": name, "seed": seed, "kind": "process", "hashseeds": [g[ks[0]][0][0], g[ks[1]][0][0]]},
             )
     ctx.notes.append(f"fresh processes finished after {ctx.elapsed():.0f}s")
-    if tot["clock_orders"] < 10:
+    if tot["clock_orders"] < 10 or tot["wide_multi"] < 20:
         raise HarnessError(f"vacuous: {tot}")
     ctx.cov.update(
         evaluations=tot["runs"],
         distinct_nontrivial=tot["clock_orders"],
         rule="per program and seed: every iteration order of every identity-hashed set built while compiling (SetOrderSeam; 0 if the tree no "
-        "longer uses such sets), every requirement-check ordering reachable with <= 2 (thorough 3) non-default scripted durations x 0..2 (3) "
+        "longer uses such sets), every assignment of iteration orders (quick: <= 2 non-default ones) to the distinct sets of property names iterated by the specifier-resolution modules (`set`/`frozenset` replaced in specifiers, object_types, lazy_eval), every requirement-check ordering reachable with <= 2 (thorough 3) non-default scripted durations x 0..2 (3) "
         "previously generated scenes, and fresh processes for PYTHONHASHSEED in a fixed list; all must give one result; non-trivial = "
         "distinct scripted duration vectors (check orderings) explored",
         samples=[{"program": names[0], "text": PROGRAMS[names[0]]}, {"witness_program_lines": len(WITNESS.splitlines())}],
-        collisions={"executions_with_a_set_order_choice": tot["set_multi"], "set_order_executions": tot["set_execs"], "distinct_check_duration_vectors": tot["clock_orders"], "fresh_processes": len(jobs)},
+        collisions={"executions_with_a_set_order_choice": tot["set_multi"], "set_order_executions": tot["set_execs"], "property_name_set_order_executions": tot["wide_execs"], "distinct_check_duration_vectors": tot["clock_orders"], "fresh_processes": len(jobs)},
         bounds={"programs": names, "seeds": list(SEEDS if ctx.tier == "thorough" else SEEDS[:1]), "hashseeds": list(hs)},
     )
     if ctx.capped:
@@ -361,7 +429,10 @@ def replay(ctx, case):
     ref = one_run(scenic.scenarioFromString(text), seed, 0, name)
     ex = explorer.Execution(case["choices"])
     with explorer.running(ex):
-        if case["kind"] == "set":
+        if case["kind"] == "wideset":
+            d = compile_with_set_order(text, lambda n: explorer.choose(n, tag="setorder"), wide=True, run=lambda sc: one_run(sc, seed, 0, name))
+            sig = "set-order-dependence:property-name-sets"
+        elif case["kind"] == "set":
             sc = compile_with_set_order(text, lambda n: explorer.choose(n, tag="setorder"))
             d = one_run(sc, seed, 0, name)
             sig = "set-order-dependence"
